@@ -53,9 +53,9 @@ class EntryMonitor:
     def check(self, kind, s, pre, post):
         b = self.b
         self.taken.append((b.tick, kind))
-        if (s['cpsr'] >> 24) & 1:
-            # entry from Jazelle / ThumbEE state (only reachable in configurations that have the extension): return-address
-            # offsets of those states are not modelled
+        if (s['cpsr'] >> 24) & 1 and not (s['cpsr'] >> 5) & 1:
+            # entry from Jazelle state (only reachable in configurations that have the extension): its return-address offsets are
+            # not modelled.  ThumbEE state (J=1, T=1) uses the Thumb offsets and is compared
             b.count('probe.entry-from-J-state-not-compared')
             return
         exp = EM.entry(kind, s)
